@@ -314,19 +314,27 @@ struct User {
     unmatched: Arc<Mutex<u32>>,
     start: tokio::time::Instant,
     fail_from: Option<usize>,
+    // the first transmission's send future takes this long to complete (a transport that yields while sending)
+    linger: Option<u64>,
 }
 
 #[async_trait::async_trait]
 impl stun::StunEndpointUser for User {
     type Transport = Tp;
     async fn send_to(&self, _bytes: &[u8], _target: SocketAddr, _transport: &Tp) -> std::io::Result<()> {
-        let mut sends = self.sends.lock();
-        if let Some(k) = self.fail_from {
-            if sends.len() >= k {
-                return Err(std::io::Error::new(std::io::ErrorKind::Other, "mock send failure"));
+        let first = {
+            let mut sends = self.sends.lock();
+            if let Some(k) = self.fail_from {
+                if sends.len() >= k {
+                    return Err(std::io::Error::new(std::io::ErrorKind::Other, "mock send failure"));
+                }
             }
+            sends.push((tokio::time::Instant::now() - self.start).as_millis() as u64);
+            sends.len() == 1
+        };
+        if let (true, Some(ms)) = (first, self.linger) {
+            tokio::time::sleep(Duration::from_millis(ms)).await;
         }
-        sends.push((tokio::time::Instant::now() - self.start).as_millis() as u64);
         Ok(())
     }
     async fn receive(&self, _message: stun::IncomingMessage<Tp>) {
@@ -341,13 +349,15 @@ pub async fn run_cli(case: Vec<String>) -> String {
     let start = tokio::time::Instant::now();
     let sends: Arc<Mutex<Vec<u64>>> = Default::default();
     let unmatched: Arc<Mutex<u32>> = Default::default();
-    // optional mode: senderr:<k> (the k-th transmission fails), abandon:<ms> (the caller drops the call after ms)
+    // optional mode: senderr:<k> (the k-th transmission fails), abandon:<ms> (the caller drops the call after ms),
+    // linger:<ms> (the first send_to completes only after ms)
     let mode = case.get(6).cloned().unwrap_or_default();
     // class of the response with the matching transaction id: success or error (both complete the request)
     let resp_class = if case.get(7).map(|s| s.as_str()) == Some("err") { Class::Error } else { Class::Success };
     let fail_from = mode.strip_prefix("senderr:").and_then(|k| k.parse().ok());
     let abandon: Option<u64> = mode.strip_prefix("abandon:").and_then(|k| k.parse().ok());
-    let ep = Arc::new(stun::StunEndpoint::new(User { sends: sends.clone(), unmatched: unmatched.clone(), start, fail_from }));
+    let linger: Option<u64> = mode.strip_prefix("linger:").and_then(|k| k.parse().ok());
+    let ep = Arc::new(stun::StunEndpoint::new(User { sends: sends.clone(), unmatched: unmatched.clone(), start, fail_from, linger }));
     let tsx: u128 = 0x0102030405060708090a0b0c;
     let mut b = MessageBuilder::new(Class::Request, Method::Binding, tsx);
     b.add_attr(&Software::new("probe")).unwrap();
